@@ -101,3 +101,7 @@ def run(tier: str) -> int:
         "noninterference stream: arguments are literals, so nothing of the outer context is passed",
     ]
     return chk.finish()
+
+
+def replay(doc) -> int:
+    return rc.replay(PROP, doc)
